@@ -773,6 +773,7 @@ func (h *harness) crashSweep(skip, keep bool, n int, seed int64, rng *vh.RNG, ke
 	plan := "1,2,2,2,2,6,2" // any fault-free plan gives the same file-level trace
 	h.chTrace.Add(fmt.Sprintf("seal src %s %s %s - -", vh.B(skip), vh.B(keep), plan), "ok 1 trace="+strings.Join(ops, ";"), true, cfgTag)
 	var states []string
+	synced := map[string]bool{} // sealing outputs (model names) that were fsynced since their last write
 	for i, s := range snaps {
 		res := runChild(s.dir, seed, n, skip, keep)
 		states = append(states, presence(s.listing)+":"+res.served)
@@ -783,11 +784,22 @@ func (h *harness) crashSweep(skip, keep bool, n int, seed int64, rng *vh.RNG, ke
 				What:   fmt.Sprintf("restart from the directory as it is after %q (files %s) serves %q: %s", s.op, s.listing, res.served, res.detail),
 				Replay: []string{key}})
 		}
-		// torn temporary files: truncate each existing temporary file to several lengths
-		for _, suf := range []string{consts.SdocsTmpFileSuffix, consts.IndexTmpFileSuffix} {
+		// torn files: every sealing output that exists but was not fsynced since it was last written may be cut at any
+		// length by the crash (on the unchanged code these are exactly the temporary files)
+		switch f := strings.SplitN(s.op, ":", 2); f[0] {
+		case "create", "write":
+			synced[f[1]] = false
+		case "sync":
+			synced[f[1]] = true
+		case "rename":
+			ft := strings.SplitN(f[1], ">", 2)
+			synced[ft[1]] = synced[ft[0]]
+			delete(synced, ft[0])
+		}
+		for _, suf := range []string{consts.SdocsTmpFileSuffix, consts.IndexTmpFileSuffix, consts.SdocsFileSuffix, consts.IndexFileSuffix} {
 			p := filepath.Join(s.dir, base+suf)
 			st, err := os.Stat(p)
-			if err != nil || st.Size() == 0 {
+			if err != nil || st.Size() == 0 || synced[sufName[suf]] {
 				continue
 			}
 			lens := []int64{0, st.Size() / 2, st.Size() - 1}
@@ -802,8 +814,12 @@ func (h *harness) crashSweep(skip, keep bool, n int, seed int64, rng *vh.RNG, ke
 				key := fmt.Sprintf("crash skip=%s keep=%s n=%d seed=%d point=%d(%s) torn=%s@%d", vh.B(skip), vh.B(keep), n, seed, i, s.op, suf, l)
 				h.orCrash.Case(key, true, cfgTag, "served="+r2.served, "torn="+suf)
 				if r2.served != "all" {
-					h.rep.Violate(vh.Violation{Site: "fracmanager/loader.go:load", Class: "torn-temporary-file-loses-documents",
-						What: fmt.Sprintf("restart after %q with %s truncated to %d bytes serves %q: %s", s.op, suf, l, r2.served, r2.detail), Replay: []string{key}})
+					site, class := "fracmanager/loader.go:load", "torn-temporary-file-loses-documents"
+					if suf == consts.SdocsFileSuffix || suf == consts.IndexFileSuffix {
+						site, class = "frac/active_sealer.go:syncRename", "file-published-before-fsync"
+					}
+					h.rep.Violate(vh.Violation{Site: site, Class: class,
+						What: fmt.Sprintf("restart after %q with the not yet fsynced %s cut to %d bytes serves %q: %s", s.op, suf, l, r2.served, r2.detail), Replay: []string{key}})
 				}
 				os.RemoveAll(td)
 			}
@@ -956,7 +972,7 @@ func main() {
 		chTrace: vh.NewChannel("seal.trace", "file operations of proxyFrac.Seal (rotate + frac.Seal + Active.Release through FracManager) observed at the fileop.* points vs SV.SealOps.sealTrace, for the four SkipSortDocs x KeepMetaFile settings"),
 		chCrash: vh.NewChannel("seal.crash", "per point of the seal: which of the nine files exist in the snapshot and what a restart (child process: Load, search every group, fetch every document) serves vs the model state after the same prefix and SV.FileSet.served"),
 		chFault: vh.NewChannel("seal.fault", "writeSealedFraction on an io.WriteSeeker whose k-th Seek/Write fails (k = 0..all+1; once, and from k on) vs SV.SealOps.writeIndex with the extracted generator facts and the section sizes measured on the fault-free run: result, calls issued, whether an error was dropped; non-trivial = the fault fired"),
-		orCrash: vh.NewOracle("crash.restart", "restart from the directory as it is at every file-operation boundary of sealing and release (temporary files additionally truncated: quick one random length, thorough 0 / half / all-but-one byte) must serve every document; non-trivial = a point strictly inside the seal or a torn variant"),
+		orCrash: vh.NewOracle("crash.restart", "restart from the directory as it is at every file-operation boundary of sealing and release must serve every document - also with every sealing output that exists but was not fsynced since its last write cut short (quick: one random length, thorough: 0 / half / all-but-one byte); non-trivial = a point strictly inside the seal or a torn variant"),
 		orFault: vh.NewOracle("fault.restart", "after writeSealedFraction ran on an output whose k-th call failed, the harness does what frac.Seal/proxyFrac.Seal do next (error: nothing; nil: syncRename, directory sync, Active.Release) and restarts: every document must be served; quick: every k whose error was dropped (up to 6) + every 5th k, thorough: every k, once and persistent; non-trivial = the fault fired"),
 		orFull: vh.NewOracle("seal.diskfull", "the real rotate + proxyFrac.Seal in a child process whose RLIMIT_FSIZE is lowered before the seal, so that every write growing a file beyond the limit fails (EFBIG) - limits spread from 16 bytes to the size of the largest sealed file; then a restart must serve every document; non-trivial = the seal failed"),
 		orSdocs: vh.NewOracle("sdocs.fault", "writeDocsInOrder on an io.Writer whose k-th write fails must return an error (or panic in the deferred release); non-trivial = the fault fired"),
